@@ -219,7 +219,7 @@ namespace
                 {
                     name = "abcdefghijklmnoprstuvwxyz"[c.pick(25)] + gen_token(c, 0, 8);
                 }
-                if (names.count(name))
+                while (names.count(name)) // ("a2", "a", "a" once renamed the third to "a2" again)
                     name += std::to_string(i);
                 names.insert(name);
                 std::string value = gen_token(c, 0, 10);
